@@ -147,8 +147,17 @@ def one_case(run, driver, rng, reuse=False, given=None):
         if reuse:
             # first call, then the baseline is corrected in place in the caller's frame, second call on the same object
             cl = E.client_mod().ModelClient()
+            # ... and ONE feed frame: at the first poll some of the units that report now were a third counted; the raw columns are then
+            # updated in place
+            feed = e.cur.copy()
+            early = [i for i in feed.index if float(feed.loc[i, "percent_expected_vote"]) >= e.threshold][:4]
+            for c in ("results_dem", "results_gop", "results_turnout"):
+                feed[c] = feed[c].astype(float)
+                feed.loc[early, c] = np.floor(feed.loc[early, c] * 0.3)
+            feed["percent_expected_vote"] = feed["percent_expected_vote"].astype(float)
+            feed.loc[early, "percent_expected_vote"] = 30.0
             with np.errstate(all="ignore"):
-                cl.get_estimates(e.cur.copy(), E.ELECTION_ID, e.office, estimands, [0.5], e.threshold, e.unit_type,
+                cl.get_estimates(feed, E.ELECTION_ID, e.office, estimands, [0.5], e.threshold, e.unit_type,
                                  raw_config=e.config(), preprocessed_data=pre, save_output=[], pi_method="nonparametric",
                                  aggregates=["postal_code", "unit"], features=[], fixed_effects={},
                                  model_parameters=dict(mp))
@@ -156,8 +165,10 @@ def one_case(run, driver, rng, reuse=False, given=None):
             for c in ("baseline_dem", "baseline_gop", "baseline_turnout"):
                 pre[c] = (pre[c] * 1.5).astype(int) + 7
             e.pre = pre[[c for c in e.pre.columns]].copy()
+            for c in e.cur.columns:
+                feed[c] = e.cur[c].values
             with np.errstate(all="ignore"):
-                tabs = cl.get_estimates(e.cur.copy(), E.ELECTION_ID, e.office, estimands, [0.5], e.threshold, e.unit_type,
+                tabs = cl.get_estimates(feed, E.ELECTION_ID, e.office, estimands, [0.5], e.threshold, e.unit_type,
                                         raw_config=e.config(), preprocessed_data=pre, save_output=[],
                                         pi_method="nonparametric", aggregates=["postal_code", "unit"], features=[],
                                         fixed_effects={}, model_parameters=dict(mp))
